@@ -225,8 +225,17 @@ int main(int argc, char** argv) {
         default: c.s = 127 - len - (long long)r.below((uint64_t)(c.n * c.blk + 2)); break;    // up to / near the int8_t maximum
       }
       c.e = c.s + len;
+      // int8_t ranges WIDER than the type's positive maximum (the difference end - start does not fit the type itself),
+      // with block sizes that divide them: every value exactly once, no spurious argument error
+      if (narrow && c.variant != "range" && r.chance(12)) {
+        static const long long W[][3] = {{-100, 100, 50}, {-100, 100, 100}, {-100, 100, 25}, {-100, 100, 40}, {-128, 127, 85},
+            {-128, 127, 51}, {-128, 127, 15}, {-128, 126, 127}, {-64, 64, 128}, {-90, 90, 60}};
+        const long long* w = W[r.below(10)];
+        c.s = w[0], c.e = w[1], c.blk = w[2];
+        len = (int)(c.e - c.s);
+      }
       for (int k = 0; k < len; k++)
-        if (r.chance(25)) c.ts.insert(c.s + k);
+        if (r.chance(len > 20 ? 2 : 25)) c.ts.insert(c.s + k);
       if (narrow)
         run_once<int8_t>(c, {}, [&](int k) { return (int)r.below(k); });
       else
